@@ -750,7 +750,12 @@ impl<'a> TypeEncoder<'a> {
                     .encodable
                     .import_type(name, ComponentTypeRef::Module(index));
             }
-            ItemKind::Value(_) => panic!("values are not supported in component types"),
+            ItemKind::Value(_) => {
+                state.current.encodable.import_type(
+                    name,
+                    ComponentTypeRef::Value(ComponentValType::Type(index)),
+                );
+            }
         }
     }
 
@@ -847,7 +852,7 @@ impl<'a> TypeEncoder<'a> {
                 ItemKind::Instance(_) => ComponentTypeRef::Instance(index),
                 ItemKind::Component(_) => ComponentTypeRef::Component(index),
                 ItemKind::Module(_) => ComponentTypeRef::Module(index),
-                ItemKind::Value(_) => panic!("values are not supported in component types"),
+                ItemKind::Value(_) => ComponentTypeRef::Value(ComponentValType::Type(index)),
             },
         );
 
